@@ -26,6 +26,8 @@ import DiskfsModel.Proofs.IsoWrites
 import DiskfsModel.Generated.Fat
 import DiskfsModel.Proofs.Ext4Range
 import DiskfsModel.Proofs.Ext4RangeFile
+import DiskfsModel.Proofs.SubRange
+import DiskfsModel.Generated.Ranges
 namespace Diskfs.Ranges.C03
 
 /-- frame, stated for a half-open range -/
@@ -522,5 +524,75 @@ example : ((vrun (layoutOf e4p16) (freshOwn (layoutOf e4p16) true)
       [.create false, .grow 0 2 [(0, 1000, 2)], .wblocks 0 1001 2 100 1500, .winode 0, .remove 0 false]).2.map
         (fun ev => ((evRegion (layoutOf e4p16) true ev).off, (evRegion (layoutOf e4p16) true ev).len))).length = 21 := by
   decide
+
+end Diskfs.Ranges.C03
+
+/-! ## SubStorage clause: backend.Sub is a pure translation; nested windows; calls that leave the window -/
+namespace Diskfs.Ranges.C03
+
+/-- **SubStorage is a pure translation**: a ReadAt / WriteAt issued at `off` through any nest of Subs reaches the
+    device at `off` + the sum of the window offsets — the window sizes play no part (backend/substorage.go adds
+    `offset` and checks nothing). -/
+theorem sub_nest_translates (ws : List Win) (off : Int) : subAbs ws off = off + (winSum ws : Int) :=
+  subAbs_eq ws off
+
+/-- **nested windows**: windows each inside the one around it (`Nested`: disk.Partition's window inside the
+    disk, the filesystem's window inside the partition, …); a call of `len` bytes at `off` that is in bounds of
+    the window the filesystem holds (0 ≤ off, off + len ≤ size) reaches the device inside the device range of
+    EVERY window of the nest. -/
+theorem sub_nested_inside (w : Win) (ws : List Win) (hn : Nested (w :: ws)) (off : Int) (len : Nat)
+    (h0 : 0 ≤ off) (h1 : off + (len : Int) ≤ (w.size : Int)) :
+    InsideAll (w :: ws) (subAbs (w :: ws) off) (subAbs (w :: ws) off + (len : Int)) := by
+  apply insideAll_of_head _ _ _ hn
+  intro w' rest he
+  cases he
+  rw [subAbs_eq]
+  constructor <;> omega
+
+/-- **a call that leaves the window is passed on, whole**: nothing is refused and nothing is truncated — a write
+    that straddles or lies behind the window end reaches the device with its full length and ends behind the
+    window's device range; a negative offset that the window offset makes non-negative lands in front of it.
+    So the range property of a filesystem behind a Sub rests on the filesystem's own arithmetic (the ext4,
+    iso9660 and squashfs clauses above), not on the wrapper. -/
+theorem sub_straddle_passes (w : Win) (ws : List Win) (off : Int) (len : Nat) (h : (w.size : Int) < off + (len : Int)) :
+    (winSum (w :: ws) : Int) + (w.size : Int) < subAbs (w :: ws) off + (len : Int) := by
+  rw [subAbs_eq]; omega
+
+theorem sub_negative_passes (w : Win) (ws : List Win) (off : Int) (h : off < 0) :
+    subAbs (w :: ws) off < (winSum (w :: ws) : Int) := by
+  rw [subAbs_eq]; omega
+
+/-- **Seek**: SeekStart to a non-negative offset returns that offset and leaves the device at offset + the sum of
+    the window offsets; SeekEnd returns `size + offset` of the window the caller holds (the only use of `size`);
+    SeekCurrent returns the device position moved by `offset`, less the window offsets. -/
+theorem sub_seek (devSize : Nat) (w : Win) (ws : List Win) (upos offset : Int) :
+    (0 ≤ offset → subSeek devSize (w :: ws) upos .start offset = some (offset + (winSum (w :: ws) : Int), offset)) ∧
+    (0 ≤ (w.size : Int) + offset → subSeek devSize (w :: ws) upos .«end» offset =
+      some ((w.size : Int) + offset + (winSum (w :: ws) : Int), (w.size : Int) + offset)) ∧
+    (0 ≤ upos + offset → subSeek devSize (w :: ws) upos .current offset =
+      some (upos + offset, upos + offset - (winSum (w :: ws) : Int))) :=
+  ⟨subSeek_start devSize _ upos offset, subSeek_end devSize w ws upos offset, subSeek_current devSize _ upos offset⟩
+
+/-! non-vacuity: a filesystem window of 1 MiB at 4096 inside a partition window of 8 MiB at 1 MiB -/
+example : Nested [⟨4096, 1048576⟩, ⟨1048576, 8388608⟩] := ⟨by decide, trivial⟩
+example : subAbs [⟨4096, 1048576⟩, ⟨1048576, 8388608⟩] 100 = 1052772 := by decide
+example : subSeek 16777216 [⟨4096, 1048576⟩, ⟨1048576, 8388608⟩] 0 .«end» (-16) = some (2101232, 1048560) := by decide
+
+end Diskfs.Ranges.C03
+
+/-! ## regenerated facts: who translates the start offset, and how often -/
+namespace Diskfs.Ranges.C03
+
+/-- ext4, iso9660 and squashfs wrap the backend in `backend.Sub(b, start, size)` (and their write models above
+    are shifted by `subWrite start`); the FAT packages do not -/
+theorem facts_agree_sub_users : Generated.Ranges.sub_users = ["ext4", "iso9660", "squashfs"] := by decide
+
+/-- the FAT packages add the start by hand: in EVERY ReadAt / WriteAt call of fat12, fat16 and fat32 the offset
+    argument, normalised by go/ast (conversions dropped, locals replaced by their nearest assignment, sums
+    flattened), contains the filesystem start exactly once — never forgotten (0, seeded m62) and never doubled
+    (2, seeded m05); the write-logging FAT model (`Layout.io`) adds `start` once to every offset likewise -/
+theorem facts_agree_fat_start_once :
+    (∀ c ∈ Generated.Ranges.fat_io_start_counts, c = 1) ∧ 20 ≤ Generated.Ranges.fat_io_start_counts.length ∧
+    Generated.Ranges.fat_io_start_counts.length = Generated.Ranges.fat_io_sites.length := by decide
 
 end Diskfs.Ranges.C03
